@@ -86,7 +86,7 @@ impl Checkpoint {
 pub mod core { pub(crate) use super::Config; }
 pub mod result {
 //!const src/app/result.rs RESULT_OUTPUT_FILE_NAME
-pub(crate) const RESULT_OUTPUT_FILE_NAME: &⟦'static ⟧str = "result.json.zst";
+pub const RESULT_OUTPUT_FILE_NAME: &⟦'static ⟧str = "result.json.zst";
 //!end
 }
 impl Config {
